@@ -20,6 +20,9 @@ pub(crate) fn set_offset(l: &Local, v: usize) {
 pub(crate) fn slots(s: &Slots) -> &[Debt; DEBT_SLOT_CNT] {
     &s.0
 }
+pub(crate) const fn const_local() -> Local {
+    Local { offset: core::cell::Cell::new(0) }
+}
 pub(crate) fn new_local() -> Local {
     Local::default()
 }
